@@ -358,3 +358,49 @@ func VerifC13_OpenFileHandles() {
 		verifrt.Assert(led.Opened == led.Closed, "openhandles.close-releases")
 	}
 }
+
+// C11 (history): the key source is chosen anew on every open. One FS value, one image path, two opens;
+// which key files exist is decided independently before each open (a key file appears, disappears or is
+// replaced by the other source in between). The second open must pick its source from what exists then.
+func VerifC11_Reopen() {
+	verifrt.NativeUnsupported("AES is replaced by engine-injected cipher stubs")
+	const path, adjacent, redkey = "/PS3ISO/g.iso", "/PS3ISO/g.dkey", "/REDKEY/g.dkey"
+	led := &verifstub.Ledger{}
+	size := verifrt.Int64("size")
+	verifrt.Assume(size >= 0x3000)
+	verifrt.Assume(size < 1<<40)
+	verifrt.Assume(size%2048 == 0)
+	img := &verifstub.File{Label: "img", Size: size, MTime: verifrt.Int64("img.mtime")}
+	verifrt.Assume(verifBE32("img", 0) <= 2) // bound: region tables of at most 2 plain regions
+	entA := &verifstub.Entry{Path: adjacent, File: &verifstub.File{Data: []byte(verifKeyAHex), Size: 32}}
+	entB := &verifstub.Entry{Path: redkey, File: &verifstub.File{Data: []byte(verifKeyBHex), Size: 32}}
+	bfs := &verifstub.Fs{L: led, Entries: []*verifstub.Entry{{Path: path, File: img}, entA, entB}}
+	fsys := &FS{Fs: bfs}
+	for round := 0; round < 2; round++ {
+		hasA, hasB := verifrt.Bool("adjacentkey"), verifrt.Bool("redkey")
+		entA.Gone, entB.Gone = !hasA, !hasB
+		verifDerive.calls = 0
+		f, err := fsys.OpenFile(path, os.O_RDONLY, 0)
+		if err != nil {
+			// only an image that is to be decrypted can be refused (invalid region table)
+			verifrt.Assert(f == nil && (hasA || hasB || verifWatermarkClass("img") == 1), "reopen.error-only-when-decrypting")
+			return
+		}
+		_, enc := f.(*EncryptedISO)
+		if hasA || hasB {
+			want := verifKeyA
+			if !hasA {
+				want = verifKeyB
+			}
+			verifrt.Assert(enc && verifDerive.calls == 1 && verifDerive.input == want, "reopen.key-source-of-this-open")
+		} else {
+			// no key file now: never decrypted with a key seen earlier
+			verifrt.Assert(!enc, "reopen.no-key-no-redump-decryption")
+			if verifWatermarkClass("img") != 1 {
+				verifrt.Assert(verifDerive.calls == 0, "reopen.no-key-derivation")
+			}
+		}
+		_ = f.Close()
+	}
+	verifrt.Assert(led.Opened == led.Closed, "reopen.all-released")
+}
